@@ -6,6 +6,7 @@ PROP = {
     "level_note": "Trusts the checker in harness/mon/src/shared/chan.rs, the placement of the H-B scheduling points (used by the sequential queue model to know when the swap-out happens) and vcommon::stamp() (one SeqCst counter: 'return stamp < call stamp' implies real-time precedence). Truncated items are known exactly because the harness supplies its own Channel implementation whose clear() records what it removed.",
     "technique": "runtime monitoring: offline history checker (no-dup, remainder, order, conservation, queue model) over seeded channel scenarios with hook-injected schedules; Miri and ThreadSanitizer lanes run the same monitor",
     "assumptions": [
+        "panicking user watchers: in half of the plans 15% / 40% of the when_flushed / when_empty callbacks panic (quietly) when the receiver runs them (callbacks that run at once on the caller's thread never panic); the usual exactly-once / order / conservation oracle applies unchanged to those histories and a receiver thread / future that dies with a panic is a violation (C06:receiver-died:after-panicking-watcher:<on-take|on-flush>:...)",
         "quiescence step (60% of the histories that keep their receiver): after the last sender operation has returned and before any flush / drop / further send, every accepted item (minus truncations) must have been handed to the processor by the time the receiver has begun 3 further idle waits (counted at the RecvBeforeIdleWait scheduling point, not by the clock); the last operation is delayed at its own lock point (SendLock / TrySendLock) until the receiver has made an empty pass, or the receiver is held between its empty pass and its idle wait; if the receiver does not begin 3 idle waits within a wall-clock watchdog (5 s) the step is inconclusive",
         "a receiver thread that does not exit within 10 s after the sender was dropped is left behind and the history is inconclusive; after 3 such histories the lane stops and says so",
         "the retry budget is a constant of the channel: it is measured once per run (always-retry batches of several sizes) and a give-up before that many retries counts as a dropped remainder",
